@@ -135,7 +135,8 @@ package server
 // split again at ", " when the teamserver restarts - faithful only if no element contains ", ".
 //@ func (t *Teamserver) ListenerAdd(FromUser string, Type int, Config any) (pk packager.Package)
 //@   modifies *
-//@   guard-call sep: "Join" arg(1) == ", " && forall(k, 0, len(arg(0)), !contains(arg(0)[k], ", "))
+//@   guard-call sepis: "Join" arg(1) == ", "
+//@   guard-call sep:   "Join" forall(k, 0, len(arg(0)), !contains(arg(0)[k], ", "))
 
 // C16: an edit reaches the running listener object itself (the one requests are served from),
 // for the listener with that name and for no other.
